@@ -87,14 +87,14 @@ PROFILES = {
                         "lifecycle": 0.5}, len=(3, 25)),
     # -- I/O faults ----------------------------------------------------------------
     "C12": profile(storages=["csv"], len=(3, 14), max_points=10,
-                   faults_need_atomic_rows=True,
-                   cfg_override={"flush_on_insert": True},
+                   faults_need_atomic_rows=True, flush_off=0.3,
                    mix={"update": 3, "remove": 3, "remove_all": 0.5,
                         "drop": 0.7, "read": 1, "getter": 0.5,
                         "lifecycle": 0.3, "cursor": 1}, reads_after=(0, 1)),
     "C13": profile(storages=["csv"], len=(3, 14), max_points=10,
                    faults_need_atomic_rows=True, via_h=0.2,
                    modes=["r+", "r+", "r+", "w+", "a+"],
+                   initial_mode_vary=True,
                    cfg_override={"flush_on_insert": True},
                    mix={"update": 3, "remove": 3, "remove_all": 0.5,
                         "drop": 0.7, "read": 2, "getter": 1,
